@@ -34,7 +34,7 @@ TRUSTED = ['lxml parse/serialise (objects and table are abstracted from their ow
            'the grid specification Grid.v as the meaning of "the content of position (x, y)"']
 MODELLED = ('table.py: get_cell get_row get_cells cells get_rows rows traverse _yield_odf_rows get_column get_columns columns traverse_columns get_column_cells; '
             'row.py: Row.get_cell Row.traverse Row.cells Row.get_cells; Element.clone / Row.clone / Cell.clone / Column.clone as "Detached"; the code as it is (F13 F32 F110 repaired, F30 = known finding). '
-            'NOT modelled: the filters style= content= cell_type=, flat=True (same objects, concatenated), header rows / groups.')
+            'filtered getters (TableGf.v): get_cells(cell_type= style= content= flat=), get_rows(style= content=), get_columns(style=), get_column_cells(... complete=), Row.get_cells(...). NOT modelled: header rows / groups.')
 KINDS = ['empty', 'prefilled', 'rle', 'rle', 'sample']
 GETTERS = ['get_cell', 'get_cell', 'get_row', 'get_row', 'get_cells', 'get_cells', 'get_cells', 'cells', 'get_rows', 'rows', 'traverse', 'traverse',
            'get_column', 'get_columns', 'columns', 'traverse_columns', 'traverse_columns', 'get_column_cells',
@@ -91,6 +91,30 @@ def g_getter(rng, nodes):
     if k == 'row_cells': return [k, y, rclone]
     a = sorted([pxr(), pxr()]) if rng.random() < 0.7 else [pxr(), pxr()]
     return ['row_get_cells', y, rclone, [max(0, a[0]), max(0, a[1])]]
+
+
+FGETTERS = ['f_get_cells', 'f_get_cells', 'f_get_rows', 'f_get_columns', 'f_get_column_cells', 'f_row_get_cells']
+
+
+def g_fgetter(rng, nodes):
+    cols, rows = tl.shape_of(nodes)
+    py = lambda: tl.pick_pos(rng, [r for r, _ in rows]); px = lambda: tl.pick_pos(rng, [r for r, _ in cols])
+    flt = dict(cell_type=rng.choice([None, None, 'float', 'string', 'boolean', 'all']), style=rng.choice([None, None, 's1', 's2']),
+               content=rng.choice([None, None, 'a', '^b$', '1', '[2-4]']))
+    k = rng.choice(FGETTERS)
+    if k == 'f_get_cells':
+        a = None if rng.random() < 0.3 else [px(), py(), px(), py()]
+        if a and rng.random() < 0.6: a = [min(a[0], a[2]), min(a[1], a[3]), max(a[0], a[2]), max(a[1], a[3])]
+        return [k, a, rng.random() < 0.5, flt]
+    if k == 'f_get_rows':
+        flt = dict(style=rng.choice([None, 'rs', 'rs']), content=flt['content'])
+        return [k, None if rng.random() < 0.3 else sorted([py(), py()]), flt]
+    if k == 'f_get_columns':
+        return [k, None if rng.random() < 0.3 else sorted([px(), px()]), dict(style=rng.choice([None, 'cs', 'cs']))]
+    if k == 'f_get_column_cells':
+        return [k, px(), rng.random() < 0.5, flt]
+    a = None if rng.random() < 0.3 else sorted([max(0, px()), max(0, px())])
+    return [k, py(), rng.random() < 0.6, a, flt]
 
 
 def alpha(x):
@@ -230,9 +254,9 @@ def c_iobj(o):
     return 'IK (%s) %d%%nat (%d) %s' % (c_oz(o['x']), o['rep'], o['val'], fl)
 
 
-HEADER = ('Require Import Vault Row Table Grid Tableabs Tablexml Tablechk TableB TableG TableGspec TableGchk.\n'
+HEADER = ('Require Import Vault Row Table Grid Tableabs Tablexml Tablechk TableB TableG TableGspec TableGchk TableGf TableGfchk.\n'
           'From Coq Require Import List ZArith NArith Bool Arith. Import ListNotations. Open Scope Z_scope.\n'
-          'Definition chk08 (c : obs8) : nat := chk_c08 c.\nDefinition chk08pin (c : obs8) : nat := chk_c08_pinned c.\n')
+          'Definition chk08 (c : obs8) : nat := chk_c08 c.\nDefinition chk08pin (c : obs8) : nat := chk_c08_pinned c.\nDefinition chk08f (c : obs8f) : nat := chk_c08f c.\n')
 
 
 def run_case_once(odfdo, case):
@@ -246,6 +270,8 @@ def run_case_once(odfdo, case):
             rec = r.step(st)
             if rec['raised']:
                 return dict(term=None, error='setup step raised: %r' % (rec['raised'],), records=[], skipped=True)
+        if case['getter'][0].startswith('f_'):
+            return run_fcase(odfdo, r, case)
         t = r.table
         pre = r.abs()
         g = case['getter']
@@ -333,6 +359,134 @@ def run_case_once(odfdo, case):
     return dict(term=term, error=None, records=[rec])
 
 
+def mutate_eager(r, odfdo, flat, plan, start_table):
+    """observe every object (None stays None), then mutate the planned ones one after the other; after each: table and siblings"""
+    obs = [None if o is None else observe(r, o) for o in flat]
+    prev_table = start_table
+    ser = lambda: [None if o is None else o.serialize() for o in flat]
+    prev_ser = ser()
+    for idx, kind in plan:
+        if idx >= len(flat) or flat[idx] is None or kind not in MUT[obs[idx]['kind']] or obs[idx].get('mutated'):
+            continue
+        try:
+            tl.timed(do_mutation, odfdo, flat[idx], kind, idx)
+        except Exception as e:
+            obs[idx]['mutation_error'] = repr(e)
+            continue
+        now_table = r.abs(); now_ser = ser()
+        obs[idx].update(mutated=True, tch=now_table != prev_table,
+                        och=any(now_ser[j] != prev_ser[j] for j in range(len(flat)) if j != idx), mutation=kind)
+        prev_table, prev_ser = now_table, now_ser
+    return obs
+
+
+def passes(cell, flt):
+    """the three tests of the filtered getters, on a detached object (which cells pass a filter is not C08's subject)"""
+    ct = flt.get('cell_type')
+    if ct:
+        ctype = cell.type
+        if not ctype or not (ctype == ct or ct == 'all'):
+            return False
+    if flt.get('content') and not cell.match(flt['content']):
+        return False
+    if flt.get('style') and flt['style'] != cell.style:
+        return False
+    return True
+
+
+def accepted_sets(r, odfdo, pre_xml, flt):
+    """the finite form of the filter: accepted (value id, style id), accepted logical rows, accepted column attribute ids"""
+    it = r.intern
+    sty = {0: None}; sty.update({i: n for n, i in it.sty.items()})
+    ac = []
+    for v in [0] + sorted(it.val_xml):
+        xml = it.val_xml.get(v, '<table:table-cell/>')
+        for sid, name in sty.items():
+            c = odfdo.Element.from_tag(xml)
+            if name is not None:
+                c.set_attribute('table:style-name', name)
+            if passes(c, flt):
+                ac.append((v, sid))
+    x = etree.fromstring('<r %s>%s</r>' % (tl.NSDECL, pre_xml))[0]
+    ay, y = [], 0
+    for ch in x:
+        if ch.tag == T + 'table-row':
+            n = tl.rep_val(ch.get(T + 'number-rows-repeated'))
+            row = odfdo.Element.from_tag(etree.tostring(ch, with_tail=False).decode())
+            ok = not (flt.get('content') and not row.match(flt['content'])) and not (flt.get('style') and flt['style'] != row.style)
+            if ok:
+                ay += list(range(y, y + n))
+            y += n
+    ak = []
+    for attrs, cid in [((), 0)] + list(it.cola.items()):
+        st = dict(attrs).get(T + 'style-name')
+        if not (flt.get('style') and flt['style'] != st):
+            ak.append(cid)
+    return ac, ay, ak
+
+
+def call_fgetter(table, g):
+    k, flt = g[0], g[-1]
+    kw = {a: flt[a] for a in ('cell_type', 'style', 'content') if flt.get(a)}
+    if k == 'f_get_cells':
+        res = table.get_cells(tuple(g[1]) if g[1] is not None else None, flat=g[2], **kw)
+        return ('flat', res) if g[2] else ('cells', res)
+    if k == 'f_get_rows':
+        kw.pop('cell_type', None)
+        return 'flat', table.get_rows(tuple(g[1]) if g[1] is not None else None, **kw)
+    if k == 'f_get_columns':
+        return 'flat', table.get_columns(tuple(g[1]) if g[1] is not None else None, style=flt.get('style'))
+    if k == 'f_get_column_cells':
+        return 'opt', table.get_column_cells(g[1], complete=g[2], **kw)
+    if k == 'f_row_get_cells':
+        row = table.get_row(g[1], clone=g[2])
+        return 'flat', row.get_cells(tuple(g[3]) if g[3] is not None else None, **kw)
+    raise KeyError(k)
+
+
+def c_fgetter(g):
+    k = g[0]
+    if k == 'f_get_cells': return 'FGetCells %s %s' % ('None' if g[1] is None else '(Some (%d,%d,%d,%d))' % tuple(g[1]), lb.c_b(g[2]))
+    if k == 'f_get_rows': return 'FGetRows %s' % ('None' if g[1] is None else '(Some (%d,%d))' % tuple(g[1]))
+    if k == 'f_get_columns': return 'FGetColumns %s' % ('None' if g[1] is None else '(Some (%d,%d))' % tuple(g[1]))
+    if k == 'f_get_column_cells': return 'FColumnCells (%d) %s' % (g[1], lb.c_b(g[2]))
+    if k == 'f_row_get_cells':
+        a = g[3]
+        return 'FRowGetCells (%d) %s %s %s' % (g[1], lb.c_b(g[2]), 'None' if a is None else '(Some (%d))' % a[0], 'None' if a is None else '(Some (%d))' % a[1])
+    raise KeyError(k)
+
+
+def run_fcase(odfdo, r, case):
+    """a FILTERED getter: executed after the setup steps of run_case_once"""
+    t = r.table
+    pre_xml = tl.timed(t.serialize)
+    pre = tl.abs_xml(pre_xml, r.intern)
+    g = case['getter']
+    raised, shape, res = None, 'flat', []
+    try:
+        shape, res = tl.timed(call_fgetter, t, g)
+    except Exception as e:
+        raised = repr(e)
+    post = r.abs()
+    nested = res if shape == 'cells' else [res]
+    flat = [o for line in nested for o in line]
+    obs = mutate_eager(r, odfdo, flat, case.get('mutate', []), post)
+    ac, ay, ak = accepted_sets(r, odfdo, pre_xml, g[-1])
+    it = iter(obs)
+    nested_obs = [[next(it) for _ in line] for line in nested]
+    if shape == 'cells':
+        cres = 'IFCells [%s]' % ';'.join('[%s]' % ';'.join(c_iobj(o) for o in line) for line in nested_obs)
+    elif shape == 'opt':
+        cres = 'IFOpt [%s]' % ';'.join('None' if o is None else 'Some (%s)' % c_iobj(o) for o in nested_obs[0])
+    else:
+        cres = 'IFFlat [%s]' % ';'.join(c_iobj(o) for o in nested_obs[0])
+    term = '(Obs8f %s\n (%s) [%s] %s %s %s\n %s\n (%s))' % (
+        tl.c_xtable(pre), c_fgetter(g), ';'.join('(%d,%d)' % p for p in ac), tl.c_zlist(ay), tl.c_zlist(ak), lb.c_b(bool(raised)), tl.c_xtable(post), cres)
+    rec = dict(getter=g, raised=raised, pre=pre, post=post, objects=[[o or dict(kind='none', rep=1) for o in line] for line in nested_obs],
+               shape=tl.shape_of(pre), lazy=False, filtered=True)
+    return dict(term=term, error=None, records=[rec], filtered=True)
+
+
 def run_case(odfdo, case):
     res = run_case_once(odfdo, case)
     if 'CallTimeout' in str(res.get('error')) or any('CallTimeout' in str(x.get('raised')) for x in res.get('records', [])):
@@ -369,7 +523,7 @@ def gen_case(odfdo, seed, kind, nsteps, maxw, maxh):
             r.step(st); case['steps'].append(dict(read=st['read']))
     except Exception as e:
         return case, dict(term=None, error='setup: %r' % (e,), records=[])
-    case['getter'] = g_getter(rng, nodes)
+    case['getter'] = g_fgetter(rng, nodes) if rng.random() < 0.2 else g_getter(rng, nodes)
     case['lazy'] = case['getter'][0] in LAZY_GETTERS and rng.random() < 0.6
     # the mutation plan: up to 10 of the returned objects (first, last, random others), one mutation kind each
     cols, rows = tl.shape_of(nodes)
@@ -414,12 +568,17 @@ def plan(tier, rng):
 
 
 def evaluate(results, tag, checker='chk08'):
-    terms, idx = [], []
-    for i, (case, res) in enumerate(results):
-        if res['term'] is not None:
-            terms.append(res['term']); idx.append(i)
-    bad, errors = lb.run_shards_retry(HEADER, terms, checker, tag, min(400, max(1, len(terms) // 16 + 1)))
-    return {idx[k]: c for k, c in bad.items()}, errors
+    out, errors = {}, []
+    for filtered, chk, tg in ((False, checker, tag), (True, 'chk08f', tag + 'f')):
+        terms, idx = [], []
+        for i, (case, res) in enumerate(results):
+            if res['term'] is not None and bool(res.get('filtered')) == filtered:
+                terms.append(res['term']); idx.append(i)
+        if not terms:
+            continue
+        bad, err = lb.run_shards_retry(HEADER, terms, chk, tg, min(400, max(1, len(terms) // 16 + 1)))
+        out.update({idx[k]: c for k, c in bad.items()}); errors += err
+    return out, errors
 
 
 def shrink(case, layer):
@@ -459,7 +618,7 @@ def python_oracle(res):
 def run(tier, seed, replay=None):
     t0 = time.time(); rng = random.Random(seed)
     odfdo = common.use_repo()
-    proofs = common.build_proofs(PROP, ('TableGchk',))
+    proofs = common.build_proofs(PROP, ('TableGchk', 'TableGfchk'))
     known = {e['key']: e for e in common.known_findings(PROP)}
     corpus = [json.load(open(f))['case'] for f in sorted((common.ROOT / 'corpus' / PROP).glob('*.json'))]
     if replay:
@@ -534,7 +693,7 @@ def run(tier, seed, replay=None):
              'boundaries of that state (edge, beyond, negative, crossed, tuple and string forms); the generators traverse / Row.traverse / traverse_columns are consumed LAZILY in 60 percent of their cases (each yielded object observed and mutated at once, before the next one is asked for; later objects compared with the eager list of the same call on an untouched twin); up to 12 returned objects mutated (style attribute, value, repeated, appended cell), table and siblings re-abstracted after each. '
              'distinct_nontrivial = distinct (run shape, getter call) on tables that hold a repeated run' % (4 if tier == 'quick' else 7),
         samples=[dict(initial=c['init_xml'][:300], steps=c['steps'][:3], getter=c['getter'], mutate=c['mutate'][:4]) for c, r in done[len(corpus):len(corpus) + 3]],
-        corpus_cases=len(corpus), getters=gk, lazily_consumed_generator_cases=nlazy, mutations_by_kind=mk, mutations_that_reached_the_table=live_seen, setup_histories_discarded_because_a_setup_call_raised=skipped,
+        corpus_cases=len(corpus), getters=gk, lazily_consumed_generator_cases=nlazy, filtered_getter_cases=sum(1 for c, r in done if r.get('filtered')), mutations_by_kind=mk, mutations_that_reached_the_table=live_seen, setup_histories_discarded_because_a_setup_call_raised=skipped,
         fidelity_divergences=fid, fidelity_ratio=round(1 - fid / max(1, len(done)), 4), modelled=MODELLED, exhaustive=False,
         known_findings_reobserved=len(known_seen))
     if fid:
